@@ -262,7 +262,9 @@ func H_C09_list(which, ccap, w int) {
 	var x nb
 	x.lit("\"a,b\" <")
 	x.sym(w, 0)
-	x.lit(",y>;expires=")
+	x.lit(",y>;")
+	p1s := len(x.b)
+	x.lit("expires=")
 	d1s, d1e := x.sym(2, 3)
 	x.lws()
 	x.lit(",")
@@ -287,6 +289,11 @@ func H_C09_list(which, ccap, w int) {
 			return
 		}
 		vAssert("value-count", c.N == 3)
+		if ccap >= 1 {
+			// first value: spans end at its last parameter value, whatever LWS precedes the comma
+			vAssert("first-value-span", pfIs(c.Vals[0].V, 0, d1e))
+			vAssert("first-value-params", pfIs(c.Vals[0].Params, p1s, d1e))
+		}
 		mn := vIte(e1 < e2, int(e1), int(e2))
 		mx := vIte(e1 < e2, int(e2), int(e1))
 		vAssert("max-expires-over-all-values", int(c.MaxExpires) == mx)
@@ -306,6 +313,8 @@ func H_C09_list(which, ccap, w int) {
 			return
 		}
 		vAssert("value-count", c.N == 3)
+		vAssert("first-value-span", pfIs(c.Vals[0].V, 0, d1e))
+		vAssert("first-value-params", pfIs(c.Vals[0].Params, p1s, d1e))
 		vAssert("second-value-uri", pfIs(c.Vals[1].URI, u2s, u2e))
 	}
 	vReach("end")
